@@ -7,6 +7,7 @@
  * op lines (the plan; replayable, every line independent of addresses):
  *   topo <S|X> <topology flags> <filters: 20 chars 0-3 or -> <synthetic string | xml path>
  *   misc <k> <name>                 insert a Misc object below the (k mod nobjs)-th object in DFS order
+ *   group <k> <dont_merge>          insert a Group with the cpuset of the (k mod nobjs)-th object in DFS order (normal, not the root)
  *   allow <cpuset> <nodeset>        hwloc_topology_allow(CUSTOM) (only effective with INCLUDE_DISALLOWED)
  *   restrict <set> <flags>          set = <hex mask> | I<hex mask of the complement> (infinite set)
  * c-out: one line per op.  trace-out (input of the Lean driver): for topo/misc/allow one line `echo <c-out line>`;
@@ -119,6 +120,21 @@ static void do_misc(unsigned long k, const char *name) {
   say("misc %s", m ? "ok" : errname(errno ? errno : -1));
 }
 
+static void do_group(unsigned long k, int dm) {
+  if (!topo_loaded) { say("group skip"); return; }
+  struct objlist l = {0};
+  ol_collect(&l, hwloc_get_root_obj(topo));
+  hwloc_obj_t target = l.o[k % l.n];
+  free(l.o);
+  if (!target->parent || !target->cpuset || hwloc_bitmap_iszero(target->cpuset) || (int) target->type > (int) HWLOC_OBJ_GROUP) { say("group none"); return; }
+  hwloc_obj_t g = hwloc_topology_alloc_group_object(topo);
+  if (!g) { say("group refused"); return; }
+  g->cpuset = hwloc_bitmap_dup(target->cpuset);
+  g->attr->group.dont_merge = dm ? 1 : 0;
+  hwloc_obj_t res = hwloc_topology_insert_group_object(topo, g);
+  say("group %s", !res ? "fail" : res == g ? "new" : "existing");
+}
+
 static void do_allow(const char *cs, const char *ns) {
   if (!topo_loaded) { say("allow skip"); return; }
   hwloc_bitmap_t c = parse_set(cs), n = parse_set(ns);
@@ -154,6 +170,9 @@ static void exec_line(char *line) {
     if (sscanf(line + 5, " %c %lu %63s %n", &kind, &u, a, &pos) >= 3) do_topo(kind, u, a, line + 5 + pos); else say("topo badop");
   } else if (!strncmp(line, "misc ", 5)) {
     if (sscanf(line + 5, "%lu %63s", &u, a) == 2) do_misc(u, a); else say("misc badop");
+  } else if (!strncmp(line, "group ", 6)) {
+    unsigned long dm;
+    if (sscanf(line + 6, "%lu %lu", &u, &dm) == 2) do_group(u, (int) dm); else say("group badop");
   } else if (!strncmp(line, "allow ", 6)) {
     char *c = strtok(line + 6, " "), *n = c ? strtok(NULL, " ") : NULL;
     if (c && n) do_allow(c, n); else say("allow badop");
@@ -198,7 +217,9 @@ static void gen_synthetic(char *s, int cap) {
 static void gen_filters(char *f) {
   for (int i = 0; i < 20; i++) f[i] = '-';
   f[20] = 0;
-  switch (rng_below(8)) {
+  switch (rng_below(9)) {
+  case 8: for (int i = 0; i < 20; i++) f[i] = '2'; f[13] = '0'; return;          /* KEEP_STRUCTURE wherever legal but Groups KEEP_ALL
+                                                                                    (child level below a Group level decides alone) */
   case 0: case 1: return;                                                        /* defaults (Groups KEEP_STRUCTURE, no I/O) */
   case 2: case 3: for (int i = 0; i < 20; i++) f[i] = '0'; f[13] = '-'; return;  /* all KEEP_ALL except Group */
   case 4: for (int i = 0; i < 20; i++) f[i] = '2'; return;                       /* KEEP_STRUCTURE wherever legal */
@@ -283,6 +304,11 @@ static void gen_one_topology(unsigned long *budget) {
   }
   emit("%s", line); (*budget)--;
   if (!topo_loaded) { stat_hit("topo.loadfail"); return; }
+  if (rng_chance(25)) {   /* user Groups, mostly with dont_merge, so that level merging has something it must not drop */
+    unsigned ng = 1 + rng_below(2);
+    for (unsigned i = 0; i < ng; i++) { emit("group %u %u", rng_below(100000), rng_chance(75) ? 1u : 0u); if (*budget) (*budget)--; }
+    stat_hit("groups");
+  }
   unsigned nrestrict = 1 + rng_below(4);
   stat_hit("chain.%u", nrestrict);
   for (unsigned r = 0; r < nrestrict && topo_loaded; r++) {
